@@ -1414,9 +1414,11 @@ int driver_main(int argc, char** argv, const Engine& e) {
   };
   std::vector<std::string> unreproduced;
   std::vector<Group> groups;
-  auto find_group = [&](const std::string& cls, const std::string& key) -> Group* {
+  // candidates that reproduce only after re-creating a worker's history form their own groups, so that an
+  // unreliable representative never shadows members of the same class that reproduce in a fresh process
+  auto find_group = [&](const std::string& cls, const std::string& key, bool needs_history) -> Group* {
     for (auto& g : groups)
-      if (g.cls == cls && g.key == key) return &g;
+      if (g.cls == cls && g.key == key && (g.hist_count > 0) == needs_history) return &g;
     return nullptr;
   };
   int crash_evals = 0;
@@ -1450,7 +1452,7 @@ int driver_main(int argc, char** argv, const Engine& e) {
       c.cls = o.cls;
       c.key = o.key;
     }
-    Group* g = find_group(c.cls, c.key);
+    Group* g = find_group(c.cls, c.key, c.crash && c.hist_count > 0);
     if (g) {
       g->count++;
       continue;
@@ -1541,6 +1543,13 @@ int driver_main(int argc, char** argv, const Engine& e) {
     std::string line = fresh_process_replay(self, path, {});
     std::string want = strprintf("class=%s key=%s hash=%016llx", fin.cls.c_str(), fin.key.c_str(), (unsigned long long)fin.hash);
     if (line.find(want) == std::string::npos) {
+      if (g.hist_count) {
+        // needed the worker's history and does not survive a change of process image: a note, not a verdict
+        unreproduced.push_back(strprintf("run %llu: %s [%s] reproduced in forked evaluators after re-creating the worker's history but not in a freshly started process", (unsigned long long)g.idx, g.cls.c_str(), g.key.c_str()));
+        unlink(path.c_str());
+        unknown_violations--;
+        continue;
+      }
       harness_fault = true;
       harness_fault_msg = "fresh-process replay of " + path + " gave '" + line + "', wanted '" + want + "'";
       continue;
